@@ -11,7 +11,6 @@ import Manticore.Lemmas.C20Bits
 import Manticore.Lemmas.C20Trim
 import Manticore.Lemmas.C20Lmnt
 import Manticore.Lemmas.C20Port
-import Manticore.Props.C20.Consts
 namespace Manticore.C20
 open Manticore
 
